@@ -132,6 +132,33 @@ class Quadratic(Member):
         return ok, "spectrum [%.4g, %.4g] vs [%.4g, %.4g]" % (ev.min(), ev.max(), lo, hi)
 
 
+class LinearFunction(Member):
+    """f(x) = a.x + b0 : convex, L-smooth for every L >= 0, ||a||-Lipschitz; no minimiser unless a = 0."""
+
+    def __init__(self, cls, params, a, b0=0.0):
+        super().__init__(params, len(a))
+        self.cls = cls
+        self.a, self.b0 = np.asarray(a, dtype=float), b0
+
+    def value(self, x):
+        return float(self.a @ x) + self.b0
+
+    def grad(self, x, rng=None):
+        return self.a.copy()
+
+    def stationary(self):
+        return np.zeros(self.dim) if not np.any(self.a) else None
+
+    def prox(self, x, gamma):
+        return x - gamma * self.a
+
+    def self_test(self, rng, n=12):
+        ok = self.cls in ("ConvexFunction", "SmoothConvexFunction", "ConvexLipschitzFunction", "SmoothConvexLipschitzFunction")
+        if "M" in self.params and self.params["M"] < INF:
+            ok = ok and np.linalg.norm(self.a) <= self.params["M"] * (1 + 1e-9)
+        return ok, "linear, ||a||=%.4g vs %r" % (np.linalg.norm(self.a), self.params)
+
+
 class Huber(Member):
     """f(x) = sum_k huber_delta(a_k.x - b_k) * w ; L = w*||A'A||, M = w*delta*sum||a_k|| (Lipschitz bound)."""
 
